@@ -105,7 +105,7 @@ class Engine:
         self.violations = []
         self.truncated = 0
         self.lazy_recip = False
-        self.max_values_per_site = 16
+        self.max_values_per_site = 40
         self.stop_after_failures = 40
         self.stopped_early = False
         self.nfail = 0
